@@ -292,6 +292,7 @@ def extra_tasks(pid):
         from contracts import fanout_common as fc
         ts += [('contracts.fanout_common', 'routed', (m, 'other')) for m in fc.ROUTED]
         ts += [('contracts.traces', 'operator_forms_retry', ())]
+        ts += [('contracts.bulk', 'bulk_task', ('C14', k)) for k in ('clear', 'evict', 'expire')]
     if pid == 'C07':
         ts += [('contracts.traces', 'exclusive_create', ())]
     return ts
